@@ -96,7 +96,16 @@ where
     usize: Cast<T>,
 {
     let len = b - a;
-    let steps = (len / step).ceil();
+    let mut steps = (len / step).ceil();
+    // integer division truncates toward zero: a partial last step still holds an element
+    let rest = len - steps * step;
+    if rest != T::zero() && ((rest > T::zero()) == (step > T::zero())) {
+        steps += T::one();
+    }
+    // `end` does not lie in the direction of `step`: the range is empty
+    if steps < T::zero() {
+        steps = T::zero();
+    }
     Linspace {
         start: a,
         step,
